@@ -107,6 +107,25 @@ Theorem C15_registered_again : forall (b : trk_broker) (ev : trk_event) (cb : Z)
 Proof. exact reattach. Qed.
 Print Assumptions C15_registered_again.
 
+(* A subscriber is the PAIR (event, callback), not the callable: registering a pair appends the callback to the subscribers of
+   THAT event and leaves the subscribers of the other events as they were -- so one callable registered for CREATED, UPDATED
+   and DELETED is a subscriber of all three --, and removing a pair leaves the other events' subscribers as they were. *)
+Theorem C15_registration_is_per_pair : forall (b : trk_broker) (ev : trk_event) (cb : Z),
+  subscribers (brk_attach b ev cb) ev = subscribers b ev ++ [cb] /\
+  forall ev', trk_event_eqb ev' ev = false ->
+    subscribers (brk_attach b ev cb) ev' = subscribers b ev' /\ subscribers (brk_detach b ev cb) ev' = subscribers b ev'.
+Proof.
+  exact (fun b ev cb => conj (subscribers_attach_same b ev cb)
+           (fun ev' H => conj (subscribers_attach_other b ev cb ev' H) (subscribers_detach_other b ev cb ev' H))).
+Qed.
+Print Assumptions C15_registration_is_per_pair.
+
+Example C15_nonvacuous_one_callable_three_events :
+  let b := brk_attach (brk_attach (brk_attach [] CREATED 10) UPDATED 10) DELETED 10 in
+  subscribers b CREATED = [10] /\ subscribers b UPDATED = [10] /\ subscribers b DELETED = [10] /\
+  subscribers (brk_detach b UPDATED 10) DELETED = [10] /\ subscribers (brk_detach b UPDATED 10) UPDATED = [].
+Proof. vm_compute. repeat split. Qed.
+
 (* Which exception an operation raises: ValueError of a rejected update (nobody was called), or the exception of the LAST
    callback it invoked -- the one that cut the loop --, except that a KeyError of a DELETED callback never leaves. *)
 Theorem C15_exception_origin : forall (V : Type) (nattrs : nat) (env : trk_env V) (st : trk_tracker V) (op : trk_op V) (e : exn),
